@@ -18,6 +18,8 @@ PROPS['C18'] = dict(
     rule='operation sequences on WarcFields (1..60 ops, names drawn from a small per-case pool of known/unknown/odd names in random letter case so that they collide; values from a pool plus random CR/LF-free bytes); distinct = distinct (observations, final state) of the implementation; non-trivial = at least one field present at the end or a getter returned data',
     nontrivial=lambda c, o: not o.endswith('|h') and not o.endswith('|'),
     stats=lambda c, o: ['ops:%d' % min(60, (int(c.split()[1]) // 10) * 10)] + (['sort'] if ' sort' in c else []) + (['set'] if ' set ' in c else []),
+    level_text='Proved in Coq for every operation sequence of any length and every starting content: the model of the WarcFields methods (as written in warcfields.go, canonical names from the field table regenerated from /repo) returns exactly the observations and final content of a reference ordered multimap (C18_fields_refine_multimap); normalisation is idempotent and case-insensitive on token/known names; Set/Delete/Sort/serialization laws and the Itoa/Atoi round trip are separate theorems. The model is tied to the code by running the extracted model and the real WarcFields on the same seeded op sequences (all getters after every step, final String()).',
+    level_note='Trusted: Coq kernel, extraction (ExtrOcamlBasic only), the field-table translator, the correspondence harness and its generator; sort.SliceStable is assumed stable (stdlib contract); strings.ToLower on non-ASCII names is an oracle. Names outside the RFC 7230 token alphabet are case-sensitive keys (Go canonicaliser), stated in the theorem.',
     assumptions=['sort.SliceStable is a stable sort (contract of the Go standard library)',
                  'strings.ToLower on names with non-ASCII bytes is an oracle (uni_lower)'],
 )
